@@ -53,6 +53,11 @@ pub const ORIGINS: &[&str] = &[
     "https://[::1]/",
     "http://[::1]:8080/",
     "https://b.test:8443/",
+    // other schemes with the same authority: ws is not http, wss is not https, a custom scheme is neither
+    "ws://a.test/",
+    "wss://a.test/",
+    "ws://a.test:8080/",
+    "custom://a.test/",
 ];
 
 pub const NEAR_MISS_FROM: usize = 6;
@@ -384,6 +389,12 @@ impl Future for DialFuture {
     fn poll(mut self: Pin<&mut Self>, cx: &mut Context<'_>) -> Poll<Self::Output> {
         let id = self.id;
         let mut w = self.w.lock().unwrap();
+        if self.done {
+            // a real transport future may panic here: whoever polls a finished future is at fault
+            let actor = w.actor();
+            w.violate("C17/connect-future-polled-after-completion", format!("the connect future of dial #{id} was polled again by {actor:?} after it had completed"));
+            return Poll::Ready(Err(HErr("polled after completion")));
+        }
         let st = w.step;
         let d = &mut w.dials[id];
         match d.connect {
@@ -496,6 +507,11 @@ impl Future for HandshakeFuture {
     fn poll(mut self: Pin<&mut Self>, cx: &mut Context<'_>) -> Poll<Self::Output> {
         let did = self.id;
         let mut w = self.w.lock().unwrap();
+        if self.done {
+            let actor = w.actor();
+            w.violate("C17/handshake-future-polled-after-completion", format!("the handshake future of dial #{did} was polled again by {actor:?} after it had completed"));
+            return Poll::Ready(Err(ConnectionError::Handshake(Box::new(HErr("polled after completion")))));
+        }
         let st = w.step;
         let actor = w.actor();
         match w.dials[did].handshake {
@@ -2376,7 +2392,7 @@ pub fn near_origins_strategy(wt: Weights, max_ops: usize) -> impl Strategy<Value
         )
             .prop_map(move |(picks, family, cfg, ops)| {
                 // `family`: stay within the entries about a.test (base table 0..3 plus near misses 6..12)
-                let pool: Vec<u8> = if family { vec![0, 1, 2, 4, 6, 7, 8, 9, 10, 11] } else { (0..ORIGINS.len() as u8).collect() };
+                let pool: Vec<u8> = if family { vec![0, 1, 2, 4, 6, 7, 8, 9, 10, 11, 18, 19, 20, 21] } else { (0..ORIGINS.len() as u8).collect() };
                 let chosen: Vec<u8> = picks.iter().map(|r| pool[idx(*r, pool.len()).unwrap_or(0)]).collect();
                 let ops = ops
                     .into_iter()
